@@ -122,6 +122,26 @@ def handleWorld (st : St) (op : String) (j : Json) : Option (E (St × Json)) :=
     let deep ← optBoolJ (fieldD j "deep" .null)
     let (t1, n1, r) := t.addTree st.next p.id s.root.kids before deep
     return reply { setTree st i t1 with next := n1 } r
+  | "w.copykids" => some do
+    let (i, t) ← getTree st j
+    let p ← nodeAt t j "p"
+    let (_, s) ← getTree st j "st"
+    let src ← nodeAt s j "sp"
+    let deep ← (fieldD j "deep" (.bool false)).getBool?
+    let (t1, n1, r) := t.copyKids st.next p.id src.kids deep
+    return reply { setTree st i t1 with next := n1 } r
+  | "w.copy" => some do
+    let (_, s) ← getTree st j "st"
+    let (t1, n1, r) := s.copyAll st.next
+    if r.isSome then return reply st r
+    return reply { st with trees := st.trees.push t1, next := n1 } r
+  | "w.nodecopy" => some do
+    let (_, s) ← getTree st j "st"
+    let src ← nodeAt s j "sp"
+    let addSelf ← (fieldD j "self" (.bool true)).getBool?
+    let (t1, n1, r) := s.copyBranch st.next src addSelf
+    if r.isSome then return reply st r
+    return reply { st with trees := st.trees.push t1, next := n1 } r
   | "w.move" => some do
     let (i, t) ← getTree st j
     let n ← nodeAt t j "n"
